@@ -271,17 +271,32 @@ theorem PVat.of_bind {α β : Type} {s : State} {c : List Id} {m : M α} {f : α
 /-! ### handles of an answer, by type (used where the first computation of a bind is not a call of a
 helper but an inline `if` / `match`) -/
 
-class DefaultR (α : Type) where
-  r : α → List Id
+/-- the handle that is the answer -/
+abbrev one : Id → List Id := fun a => [a]
 
-instance : DefaultR Unit := ⟨nil⟩
-instance : DefaultR Bool := ⟨nil⟩
-instance : DefaultR Id := ⟨fun a => [a]⟩
-instance : DefaultR Tag := ⟨nil⟩
-instance : DefaultR (Option Id) := ⟨Option.toList⟩
+theorem PV.bindU {β : Type} {c : List Id} {m : M Unit} {f : Unit → M β} {R' : β → List Id}
+    (h1 : PV c m nil) (h2 : ∀ a, PV (nil a ++ c) (f a) R') : PV c (m >>= f) R' := h1.bind h2
+theorem PV.bindB {β : Type} {c : List Id} {m : M Bool} {f : Bool → M β} {R' : β → List Id}
+    (h1 : PV c m nil) (h2 : ∀ a, PV (nil a ++ c) (f a) R') : PV c (m >>= f) R' := h1.bind h2
+theorem PV.bindT {β : Type} {c : List Id} {m : M Tag} {f : Tag → M β} {R' : β → List Id}
+    (h1 : PV c m nil) (h2 : ∀ a, PV (nil a ++ c) (f a) R') : PV c (m >>= f) R' := h1.bind h2
+theorem PV.bindI {β : Type} {c : List Id} {m : M Id} {f : Id → M β} {R' : β → List Id}
+    (h1 : PV c m one) (h2 : ∀ a, PV (one a ++ c) (f a) R') : PV c (m >>= f) R' := h1.bind h2
+theorem PV.bindO {β : Type} {c : List Id} {m : M (Option Id)} {f : Option Id → M β} {R' : β → List Id}
+    (h1 : PV c m Option.toList) (h2 : ∀ a, PV (a.toList ++ c) (f a) R') : PV c (m >>= f) R' := h1.bind h2
 
-theorem PV.bindD {α β : Type} [d : DefaultR α] {c : List Id} {m : M α} {f : α → M β} {R' : β → List Id}
-    (h1 : PV c m d.r) (h2 : ∀ a, PV (d.r a ++ c) (f a) R') : PV c (m >>= f) R' := h1.bind h2
+/-! ### join points: the continuation `have __do_jp := fun r => …` of a `do` block is walked once;
+its calls are discharged from the hypothesis (weakened to the handles in flight at the call) -/
+
+theorem PV.withJp {α β : Type} {c : List Id} {R : β → List Id} {m : M β} (Ra : α → List Id) (jp : α → M β)
+    (hk : ∀ r, PV (Ra r ++ c) (jp r) R)
+    (hb : (∀ c' r, (∀ x ∈ Ra r ++ c, x ∈ c') → PV c' (jp r) R) → PV c m R) : PV c m R :=
+  hb (fun _ r hs => (hk r).weaken hs)
+
+theorem PVat.withJp {α β : Type} {s : State} {c : List Id} {R : β → List Id} {m : M β} (Ra : α → List Id)
+    (jp : α → M β) (hk : ∀ r, PV (Ra r ++ c) (jp r) R)
+    (hb : (∀ c' r, (∀ x ∈ Ra r ++ c, x ∈ c') → PV c' (jp r) R) → PVat s c m R) : PVat s c m R :=
+  hb (fun _ r hs => (hk r).weaken hs)
 
 /-! ### membership -/
 
@@ -321,16 +336,227 @@ theorem mem_of_mem_insertIdx {α : Type} {l : List α} {i : Nat} {a b : α} (e :
 theorem mem_insertIdx_of_mem {α : Type} {l : List α} {i : Nat} {a b : α} (hi : i ≤ l.length) (e : a ∈ l) :
     a ∈ l.insertIdx i b := (List.mem_insertIdx hi).mpr (Or.inr e)
 
-/-- the workhorse for the side conditions: all of them are membership statements between lists built
-from `++`, `::`, `held`, `Option.toList` -/
-syntax "mem_tac" : tactic
+/-- the side conditions are membership statements between lists built from `++`, `::`, `held`,
+`Option.toList`.  Fast path: `simp` with the hypotheses; slow path: unfold `held` and call `grind`
+with the forward facts about `head?`, `getLast?`, `take`, `eraseIdx`, … -/
+syntax "mem_heavy0" : tactic
 macro_rules
-  | `(tactic| mem_tac) => `(tactic|
+  | `(tactic| mem_heavy0) => `(tactic|
       (intros
        try simp only [pv_mem, mem_held, List.mem_append, List.mem_cons, List.mem_singleton, List.not_mem_nil, Option.mem_toList,
-         List.mem_reverse, opArgs, outRets, childIds, nil, DefaultR.r, or_false, false_or, Option.toList] at *
+         List.mem_reverse, opArgs, outRets, childIds, nil, one, or_false, false_or, Option.toList_some,
+         Option.toList_none] at *
        first | done | grind [mem_of_head?, List.mem_of_getLast?, mem_of_mem_dropLast, List.mem_of_mem_take,
          List.mem_of_mem_drop, List.mem_of_mem_eraseIdx, List.mem_or_eq_of_mem_set, mem_of_mem_insertIdx]))
+
+/-- extended later (forward facts about entries read from the builder's lists) -/
+syntax "mem_heavy" : tactic
+macro_rules
+  | `(tactic| mem_heavy) => `(tactic| mem_heavy0)
+
+
+/-! ### forward facts: a handle read from a field of the builder is held -/
+
+/-- the handle of an entry -/
+def feH : FormatEntry → List Id
+  | .element h _ => [h]
+  | .marker => []
+@[pv_mem] theorem feH_element (h : Id) (t : Tag) : feH (.element h t) = [h] := rfl
+@[pv_mem] theorem feH_marker : feH .marker = [] := rfl
+
+/-- entries read from the builder's list are held -/
+theorem feH_of_getElem? {s : State} {i : Nat} {e : FormatEntry} (h : s.activeFormatting[i]? = some e) :
+    ∀ x ∈ feH e, x ∈ held s := by
+  intro x hx
+  cases e with
+  | marker => cases hx
+  | element h' t =>
+    simp only [feH_element, List.mem_singleton] at hx
+    subst hx
+    exact mem_held.mpr (Or.inr (Or.inr (Or.inl (mem_afIds.mpr ⟨t, List.mem_of_getElem? h⟩))))
+
+theorem feH_of_getLast? {s : State} {e : FormatEntry} (h : s.activeFormatting.getLast? = some e) :
+    ∀ x ∈ feH e, x ∈ held s := by
+  intro x hx
+  cases e with
+  | marker => cases hx
+  | element h' t =>
+    simp only [feH_element, List.mem_singleton] at hx
+    subst hx
+    exact mem_held.mpr (Or.inr (Or.inr (Or.inl (mem_afIds.mpr ⟨t, List.mem_of_getLast? h⟩))))
+
+/-- the formatting element found in the list of active formatting elements is held -/
+theorem find_afEndToMarker_held {s : State} {p : Nat × Id × Tag → Bool} {i : Nat} {h : Id} {t : Tag}
+    (e : (afEndToMarker s.activeFormatting).find? p = some (i, h, t)) : h ∈ held s := by
+  have hm := List.mem_of_find?_eq_some e
+  have aux : ∀ (l : List (FormatEntry × Nat)), (i, h, t) ∈ afEndToMarkerAux l → (FormatEntry.element h t, i) ∈ l := by
+    intro l
+    induction l with
+    | nil => intro hx; cases hx
+    | cons a rest ih =>
+      obtain ⟨fe, j⟩ := a
+      cases fe with
+      | marker => intro hx; cases hx
+      | element h' t' =>
+        intro hx
+        simp only [afEndToMarkerAux, List.mem_cons, Prod.mk.injEq] at hx
+        rcases hx with ⟨rfl, rfl, rfl⟩ | hx
+        · exact List.mem_cons_self
+        · exact List.mem_cons_of_mem _ (ih hx)
+  have h2 := aux _ hm
+  rw [List.mem_reverse, List.mem_zipIdx_iff_getElem?] at h2
+  exact mem_held.mpr (Or.inr (Or.inr (Or.inl (mem_afIds.mpr ⟨t, List.mem_of_getElem? h2⟩))))
+
+
+theorem held_of_getLast? {s : State} {h : Id} (e : s.openElems.getLast? = some h) : h ∈ held s :=
+  mem_held.mpr (Or.inr (Or.inl (List.mem_of_getLast? e)))
+theorem held_of_head? {s : State} {h : Id} (e : s.openElems.head? = some h) : h ∈ held s :=
+  mem_held.mpr (Or.inr (Or.inl (mem_of_head? e)))
+theorem held_of_getElem? {s : State} {i : Nat} {h : Id} (e : s.openElems[i]? = some h) : h ∈ held s :=
+  mem_held.mpr (Or.inr (Or.inl (List.mem_of_getElem? e)))
+theorem held_of_headElem {s : State} {h : Id} (e : s.headElem = some h) : h ∈ held s :=
+  mem_held.mpr (Or.inr (Or.inr (Or.inr (Or.inl e))))
+theorem held_of_formElem {s : State} {h : Id} (e : s.formElem = some h) : h ∈ held s :=
+  mem_held.mpr (Or.inr (Or.inr (Or.inr (Or.inr (Or.inl e)))))
+theorem held_of_contextElem {s : State} {h : Id} (e : s.contextElem = some h) : h ∈ held s :=
+  mem_held.mpr (Or.inr (Or.inr (Or.inr (Or.inr (Or.inr e)))))
+
+/-- run after a `match` on a field of the builder has been split: records that the handle read is held -/
+syntax "fwd_tac" : tactic
+macro_rules
+  | `(tactic| fwd_tac) => `(tactic|
+      ((try (have hfw := held_of_getLast? ‹List.getLast? (State.openElems _) = some _›))
+       (try (have hfw := held_of_head? ‹List.head? (State.openElems _) = some _›))
+       (try (have hfw := held_of_getElem? ‹(State.openElems _)[_]? = some _›))
+       (try (have hfw := held_of_headElem ‹State.headElem _ = some _›))
+       (try (have hfw := held_of_formElem ‹State.formElem _ = some _›))
+       (try (have hfw := held_of_contextElem ‹State.contextElem _ = some _›))
+       (try (have hfw := feH_of_getElem? ‹(State.activeFormatting _)[_]? = some _›))
+       (try (have hfw := feH_of_getLast? ‹(State.activeFormatting _).getLast? = some _›))
+       (try (have hfw := find_afEndToMarker_held ‹List.find? _ (afEndToMarker _) = some _›))))
+
+/-- `∀ x ∈ c, x ∈ a₁ ++ (a₂ ++ … ++ c)`: the handles in flight only grow at the front -/
+syntax "suffix_tac" : tactic
+macro_rules
+  | `(tactic| suffix_tac) => `(tactic|
+      (intro x hx
+       repeat (first | exact hx | apply List.mem_append_right)
+       done))
+
+/-- the handle-holding fields one by one -/
+theorem held_of_fields {s s' : State} {c : List Id} (hd : s'.docHandle = s.docHandle)
+    (ho : ∀ x ∈ s'.openElems, x ∈ s.openElems ∨ x ∈ c)
+    (ha : ∀ x t, FormatEntry.element x t ∈ s'.activeFormatting →
+      (∃ t', FormatEntry.element x t' ∈ s.activeFormatting) ∨ x ∈ c)
+    (hh : ∀ x, s'.headElem = some x → s.headElem = some x ∨ x ∈ c)
+    (hf : ∀ x, s'.formElem = some x → s.formElem = some x ∨ x ∈ c)
+    (hc : ∀ x, s'.contextElem = some x → s.contextElem = some x ∨ x ∈ c) :
+    ∀ x ∈ held s', x ∈ held s ∨ x ∈ c := by
+  intro x hx
+  simp only [mem_held, mem_afIds] at hx ⊢
+  rcases hx with hx | hx | ⟨t, hx⟩ | hx | hx | hx
+  · exact Or.inl (Or.inl (hx.trans hd))
+  · exact (ho x hx).imp (fun h => Or.inr (Or.inl h)) id
+  · exact (ha x t hx).imp (fun h => Or.inr (Or.inr (Or.inl h))) id
+  · exact (hh x hx).imp (fun h => Or.inr (Or.inr (Or.inr (Or.inl h)))) id
+  · exact (hf x hx).imp (fun h => Or.inr (Or.inr (Or.inr (Or.inr (Or.inl h))))) id
+  · exact (hc x hx).imp (fun h => Or.inr (Or.inr (Or.inr (Or.inr (Or.inr h))))) id
+
+theorem held_of_fields_app {s s' : State} {c : List Id} (hd : s'.docHandle = s.docHandle)
+    (ho : ∀ x ∈ s'.openElems, x ∈ s.openElems ∨ x ∈ c)
+    (ha : ∀ x t, FormatEntry.element x t ∈ s'.activeFormatting →
+      (∃ t', FormatEntry.element x t' ∈ s.activeFormatting) ∨ x ∈ c)
+    (hh : ∀ x, s'.headElem = some x → s.headElem = some x ∨ x ∈ c)
+    (hf : ∀ x, s'.formElem = some x → s.formElem = some x ∨ x ∈ c)
+    (hc : ∀ x, s'.contextElem = some x → s.contextElem = some x ∨ x ∈ c) :
+    ∀ x ∈ held s', x ∈ held s ++ c :=
+  fun x hx => List.mem_append.mpr (held_of_fields hd ho ha hh hf hc x hx)
+
+syntax "mem_tac" : tactic
+
+/-- one field of the builder after an update: unchanged, or one of the list operations of the model -/
+syntax "field_tac" : tactic
+macro_rules
+  | `(tactic| field_tac) => `(tactic|
+      first
+        | exact fun _ h => Or.inl h
+        | exact fun _ _ h => Or.inl ⟨_, h⟩
+        | exact fun _ h => Or.inl (List.mem_of_mem_take h)
+        | exact fun _ h => Or.inl (List.mem_of_mem_drop h)
+        | exact fun _ h => Or.inl (mem_of_mem_dropLast h)
+        | exact fun _ h => Or.inl (List.mem_of_mem_eraseIdx h)
+        | exact fun _ _ h => Or.inl ⟨_, List.mem_of_mem_eraseIdx h⟩
+        | (intro x hx; cases hx; done)
+        | (intro x hx
+           rcases List.mem_append.mp hx with h1 | h1
+           · exact Or.inl h1
+           · refine Or.inr ?_
+             rw [List.mem_singleton] at h1
+             subst h1
+             mem_tac)
+        | (intro x hx
+           rcases List.mem_or_eq_of_mem_set hx with h1 | h1
+           · exact Or.inl h1
+           · refine Or.inr ?_
+             subst h1
+             mem_tac)
+        | (intro x hx
+           rcases mem_of_mem_insertIdx hx with h1 | h1
+           · refine Or.inr ?_
+             subst h1
+             mem_tac
+           · exact Or.inl h1)
+        | (intro x t hx
+           rcases List.mem_append.mp hx with h1 | h1
+           · exact Or.inl ⟨_, h1⟩
+           · refine Or.inr ?_
+             rw [List.mem_singleton] at h1
+             first
+               | (cases h1; done)
+               | (cases h1; mem_tac))
+        | (intro x t hx
+           rcases List.mem_or_eq_of_mem_set hx with h1 | h1
+           · exact Or.inl ⟨_, h1⟩
+           · refine Or.inr ?_
+             cases h1
+             mem_tac)
+        | (intro x t hx
+           rcases mem_of_mem_insertIdx hx with h1 | h1
+           · refine Or.inr ?_
+             cases h1
+             mem_tac
+           · exact Or.inl ⟨_, h1⟩)
+        | (intro x hx
+           cases hx
+           refine Or.inr ?_
+           mem_tac))
+
+/-- what the builder holds after a field update -/
+syntax "held_tac" : tactic
+macro_rules
+  | `(tactic| held_tac) => `(tactic|
+      first
+        | (intro s; exact fun _ h => Or.inl h)
+        | ((first | (intro s; refine held_of_fields rfl ?_ ?_ ?_ ?_ ?_) | refine held_of_fields_app rfl ?_ ?_ ?_ ?_ ?_) <;>
+            field_tac))
+
+macro_rules
+  | `(tactic| mem_tac) => `(tactic|
+      first
+        | suffix_tac
+        | (simp only [pv_mem, opArgs, childIds, nil, one, outRets, List.forall_mem_cons, List.mem_append, List.mem_cons,
+            List.mem_singleton, List.not_mem_nil, List.mem_reverse, Option.mem_toList, Option.toList_some,
+            Option.toList_none, false_imp_iff, implies_true, forall_eq, forall_eq_or_imp, or_false, false_or, true_or,
+            or_true, and_true, true_and, and_self, reduceCtorEq, Option.some.injEq, *]; done)
+        | ((try (have hm1 := List.mem_of_getLast? ‹List.getLast? _ = some _›))
+           (try (have hm2 := mem_of_head? ‹List.head? _ = some _›))
+           (try (have hm3 := List.mem_of_getElem? ‹(_ : List Id)[_]? = some _›))
+           simp +contextual only [pv_mem, mem_held, opArgs, childIds, nil, one, outRets, List.forall_mem_cons, List.mem_append,
+            List.mem_cons, List.mem_singleton, List.not_mem_nil, List.mem_reverse, Option.mem_toList, Option.toList_some,
+            Option.toList_none, false_imp_iff, implies_true, forall_eq, forall_eq_or_imp, or_false, false_or, true_or,
+            or_true, and_true, true_and, and_self, reduceCtorEq, Option.some.injEq, or_imp, forall_and, *]
+           done)
+        | mem_heavy)
 
 /-! ### the walk -/
 
@@ -343,25 +569,42 @@ syntax "pv_step" : tactic
 macro_rules
   | `(tactic| pv_step) => `(tactic|
     first
-      | exact PV.throw _
-      | exact PV.panicAt _ _ _
-      | exact PV.fuelOut _
+      | with_reducible exact PV.throw _
+      | with_reducible exact PV.panicAt _ _ _
+      | with_reducible exact PV.fuelOut _
       | ((with_reducible apply PV.pure); mem_tac)
       | pv_leaf
       | with_reducible apply PV.pureBind
       | with_reducible apply PV.getS_bind
       | with_reducible apply PVat.getS_bind
-      | ((with_reducible apply PVat.put_bind); rfl; mem_tac)
-      | ((with_reducible apply PVat.put); rfl; mem_tac)
+      | ((with_reducible apply PVat.put_bind); rfl; first | held_tac | mem_tac)
+      | ((with_reducible apply PVat.put); rfl; first | held_tac | mem_tac)
       | ((with_reducible apply PV.bind); pv_leaf)
-      | with_reducible apply PV.bindD
+      | with_reducible apply PV.bindU
+      | with_reducible apply PV.bindB
+      | with_reducible apply PV.bindT
+      | with_reducible apply PV.bindI
+      | with_reducible apply PV.bindO
       | with_reducible apply PV.iteH
       | with_reducible apply PVat.iteH
       | with_reducible apply PVat.of_bind
+      | (extract_lets +onlyGivenNames jp
+         first
+           | refine PV.withJp one jp ?_ ?_
+           | refine PV.withJp Option.toList jp ?_ ?_
+           | refine PV.withJp nil jp ?_ ?_
+           | refine PVat.withJp one jp ?_ ?_
+           | refine PVat.withJp Option.toList jp ?_ ?_
+           | refine PVat.withJp nil jp ?_ ?_
+         (intro r; dsimp only [jp])
+         rotate_left
+         (intro hjp; clear_value jp)
+         rotate_right)
       | intro _
-      | split
+      | (split <;> fwd_tac)
       | dsimp only
-      | with_reducible apply PV.at)
+      | with_reducible apply PV.at
+      | ((with_reducible apply_assumption -exfalso -intro -symm) <;> mem_tac))
 
 syntax "pv_walk" : tactic
 macro_rules
